@@ -87,8 +87,12 @@ impl VIndexerLog {
         requires stays_live(decision),
     { unimplemented!() }
     #[verifier::external_body]
-    pub fn vadd_remove(&mut self, pack: IndexPack, Ghost(decision): Ghost<PackToDo>) -> (r: RusticResult<()>)
+    pub fn vadd_remove(&mut self, pack: IndexPack, Ghost(decision): Ghost<PackToDo>, Ghost(old_time): Ghost<Option<Timestamp>>, Ghost(now): Ghost<Timestamp>) -> (r: RusticResult<()>)
         requires may_be_marked(decision),
+            // the keep-delete clock starts when a pack is MARKED: a pack marked in this run carries this run's time ...
+            (decision == PackToDo::Repack || decision == PackToDo::MarkDelete) ==> pack.time == Some(now),
+            // ... and a pack that stays marked keeps the time it was marked at (healed to now only if it had none)
+            (decision == PackToDo::KeepMarked || decision == PackToDo::KeepMarkedAndCorrect) ==> pack.time == (if old_time is Some { old_time } else { Some(now) }),
     { unimplemented!() }
 }
 // the closure `delete_pack` (pushes the id onto the list of packs removed at the end of prune)
